@@ -179,6 +179,9 @@ pub enum Beh {
     KillAfter,
     /// kill itself in the middle of the job
     KillMid,
+    /// report completion, then stop itself gracefully; its post_stop takes a few virtual ms, during which the
+    /// actor is closed for messages (status Stopping) while the factory has not been told yet
+    StopAfter,
 }
 
 pub struct JobMsg {
@@ -270,6 +273,8 @@ struct HWState {
     wid: usize,
     inc: i64,
     factory: ActorRef<FactoryMessage<u64, JobMsg>>,
+    /// how long post_stop takes (set by a StopAfter job)
+    close_ms: u64,
 }
 
 #[cfg_attr(feature = "asynctrait", ractor::async_trait)]
@@ -289,7 +294,7 @@ impl Actor for HWorker {
             inc
         };
         obs("obs.w_new", 0, vec![kvi("wid", ctx.wid as i64), kvi("inc", inc)]);
-        Ok(HWState { wid: ctx.wid, inc, factory: ctx.factory })
+        Ok(HWState { wid: ctx.wid, inc, factory: ctx.factory, close_ms: 0 })
     }
 
     async fn handle(&self, myself: ActorRef<Self::Msg>, msg: Self::Msg, st: &mut HWState) -> Result<(), ActorProcessingErr> {
@@ -323,6 +328,13 @@ impl Actor for HWorker {
                         myself.kill();
                         obs("obs.w_kill", 0, vec![kvi("inc", st.inc)]);
                     }
+                    Beh::StopAfter => {
+                        let ok = st.factory.cast(FactoryMessage::Finished(st.wid, key)).is_ok();
+                        end(st, "ok", i64::from(ok));
+                        st.close_ms = 6 + (id as u64 % 3) * 7;
+                        myself.stop(None);
+                        obs("obs.w_stop", 0, vec![kvi("inc", st.inc)]);
+                    }
                     Beh::Panic => {
                         end(st, "panic", 0);
                         panic!("job panics");
@@ -338,6 +350,15 @@ impl Actor for HWorker {
                     }
                 }
             }
+        }
+        Ok(())
+    }
+
+    async fn post_stop(&self, _myself: ActorRef<Self::Msg>, st: &mut HWState) -> Result<(), ActorProcessingErr> {
+        // from here on (status Stopping) casts to this worker fail; the supervisor hears of it only after post_stop
+        obs("obs.w_closing", 0, vec![kvi("inc", st.inc)]);
+        if st.close_ms > 0 {
+            ractor::concurrency::sleep(Duration::from_millis(st.close_ms)).await;
         }
         Ok(())
     }
@@ -575,7 +596,7 @@ async fn client(sc: Arc<FScn>, w: W, f: ActorRef<FactoryMessage<u64, JobMsg>>, o
 }
 
 const FKEEP: &[&str] = &[
-    "obs.cfg", "obs.w_new", "obs.w_start", "obs.w_end", "obs.w_kill", "obs.discard", "obs.hook", "obs.submit", "obs.reply", "obs.adjust",
+    "obs.cfg", "obs.w_new", "obs.w_start", "obs.w_end", "obs.w_kill", "obs.w_stop", "obs.w_closing", "obs.discard", "obs.hook", "obs.submit", "obs.reply", "obs.adjust",
     "obs.drain", "obs.update", "obs.q_sent", "obs.q_reply", "factory.step", "factory.cast", "guard.cleanup",
 ];
 
@@ -779,6 +800,57 @@ pub fn factory_micro(which: &str) -> Vec<FScn> {
             v.push(s);
         }
     }
+    if all || which == "closing" {
+        // a worker reports completion and stops itself; while its post_stop runs it is closed for messages but the
+        // factory has not been told.  Jobs dispatched to its slot in that window are parked for the replacement.
+        // key-persistent: job 2 (key 1) is parked on slot 0, picked up by the replacement; then the pool grows so that
+        // key 1 hashes to slot 1, and further key-1 jobs must still follow job 2 to slot 0
+        let mut s = base_scn(Routing::KeyP, 1);
+        s.clients = vec![vec![subb(1, 1, Beh::StopAfter), COp::Sleep(3), job(2, 1, Beh::Ok, 40, true, None), job(3, 2, Beh::Ok, 0, true, None), COp::Sleep(15), COp::Adjust(2),
+                              job(4, 1, Beh::Ok, 5, true, None), job(5, 1, Beh::Ok, 0, false, None), job(6, 2, Beh::Ok, 0, false, None)]];
+        v.push(s);
+        // the same with two workers and a shrink instead of a grow (key 1: slot 1 of 2, slot 0 of 1)
+        let mut s = base_scn(Routing::KeyP, 2);
+        s.clients = vec![vec![subb(1, 1, Beh::StopAfter), COp::Sleep(3), job(2, 1, Beh::Ok, 40, true, None), job(3, 1, Beh::Ok, 0, true, None), COp::Sleep(15), COp::Adjust(1),
+                              job(4, 1, Beh::Ok, 5, true, None), job(5, 2, Beh::Ok, 0, false, None)]];
+        v.push(s);
+        // custom hash (key 1 -> slot 1 of 2) and round robin (first pick is slot 1), with and without a worker queue limit
+        for (r, lim) in [(Routing::Custom, None), (Routing::Custom, Some((1usize, true))), (Routing::RoundRobin, None), (Routing::RoundRobin, Some((1usize, true)))] {
+            let mut s = base_scn(r, 2);
+            s.limit = lim;
+            s.clients = vec![vec![subb(1, 1, Beh::StopAfter), COp::Sleep(3), job(2, 1, Beh::Ok, 20, true, None), job(3, 1, Beh::Ok, 0, true, None), job(4, 1, Beh::Ok, 0, true, None),
+                                  COp::Sleep(15), COp::Adjust(3), job(5, 1, Beh::Ok, 5, true, None), job(6, 2, Beh::Ok, 0, false, None)]];
+            v.push(s);
+        }
+        // sticky: slot 0 is busy with another key, slot 1 closes; key-1 jobs arrive in the window
+        let mut s = base_scn(Routing::Sticky, 2);
+        s.clients = vec![vec![job(9, 2, Beh::Ok, 12, false, None), subb(1, 1, Beh::StopAfter), COp::Sleep(3), job(2, 1, Beh::Ok, 30, true, None), COp::Sleep(25), COp::Adjust(3),
+                              job(4, 1, Beh::Ok, 5, true, None), job(5, 3, Beh::Ok, 0, false, None)]];
+        v.push(s);
+        // a StopAfter worker with more work already queued on its slot
+        for r in [Routing::KeyP, Routing::RoundRobin] {
+            let mut s = base_scn(r, 1);
+            s.clients = vec![vec![job(1, 1, Beh::StopAfter, 10, true, None), job(2, 1, Beh::Ok, 5, true, None), job(3, 2, Beh::StopAfter, 0, true, None), COp::Sleep(12), job(4, 1, Beh::Ok, 0, true, None),
+                                  COp::Sleep(30), job(5, 2, Beh::Ok, 0, true, None)]];
+            v.push(s);
+        }
+    }
+    // sticky: the parked job has no in-flight entry, a later job of its key goes to the other slot (Dev_ParkedJobNotSticky)
+    if all || which == "closing" || which == "closing_sticky" {
+        let mut s = base_scn(Routing::Sticky, 2);
+        s.clients = vec![vec![job(9, 2, Beh::Ok, 8, false, None), subb(1, 1, Beh::StopAfter), COp::Sleep(3), job(2, 1, Beh::Ok, 30, true, None), COp::Sleep(2), job(3, 1, Beh::Ok, 30, true, None)]];
+        v.push(s);
+    }
+    // DiscardMode::Oldest: jobs parked on the closed slot are not shed (Dev_ClosedWorkerQueueOverLimit)
+    if all || which == "closing" || which == "closing_oldest" {
+        for r in [Routing::Custom, Routing::KeyP] {
+            let mut s = base_scn(r, 2);
+            s.limit = Some((1usize, false));
+            s.clients = vec![vec![subb(1, 1, Beh::StopAfter), COp::Sleep(3), job(2, 1, Beh::Ok, 20, true, None), job(3, 1, Beh::Ok, 0, true, None), job(4, 1, Beh::Ok, 0, true, None),
+                                  COp::Sleep(15), COp::Adjust(3), job(5, 1, Beh::Ok, 5, true, None), job(6, 2, Beh::Ok, 0, false, None)]];
+            v.push(s);
+        }
+    }
     if all || which == "shrinkdrain" {
         // a pool shrink leaves the busy out-of-pool worker draining with accepted jobs in its own queue, then
         // DrainRequests arrives while every in-pool worker is idle: the factory must wait for that worker
@@ -885,6 +957,7 @@ pub fn rand_scn(rng: &mut Rng) -> FScn {
             2 => Beh::Err,
             3 | 4 => Beh::KillAfter,
             5 => Beh::KillMid,
+            6 => Beh::StopAfter,
             _ => Beh::Ok,
         };
         let ttl = if rng.chance(1, 5) { Some([0u64, 5, 20, 200][rng.below(4)]) } else { None };
@@ -937,6 +1010,7 @@ pub fn rand_shrink_drain(rng: &mut Rng) -> FScn {
         let beh = match rng.below(12) {
             0 => Beh::Panic,
             1 => Beh::KillAfter,
+            2 => Beh::StopAfter,
             _ => Beh::Ok,
         };
         c0.push(COp::Submit { id, key: KEYS[rng.below(nkeys)], ttl: None, port: rng.chance(3, 4), beh, yields: rng.below(2) as u8, sleep_ms: [0u64, 5, 15, 30, 45][rng.below(5)] });
